@@ -120,7 +120,14 @@ class Abs26Relocation(Relocation):
 
     def calc(self, sym_value, reloc_value):
         assert sym_value % 4 == 0
-        return sym_value >> 2
+        # The upper 4 address bits are taken from the delay slot address:
+        region_mask = ~0x0FFFFFFF
+        if (sym_value & region_mask) != ((reloc_value + 4) & region_mask):
+            raise ValueError(
+                f"Jump target 0x{sym_value:X} is not in the same 256 MiB"
+                + f" region as the jump at 0x{reloc_value:X}"
+            )
+        return (sym_value >> 2) & 0x3FFFFFF
 
 
 # Memory instructions:
